@@ -11,7 +11,7 @@ class Prop:
             'fragments with random cut points, every hand-over order (random permutation; all permutations for <= 3 '
             'parts in a sub-sample), trailing CR/LF/blanks, leading tag blocks, str versus bytes arguments; all must '
             'decode to the same message as the plain single rendering and as from_bitarray on the bits; each call is '
-            'also compared with the Lean model; non-trivial = more than one fragment or a decorated line')
+            'also compared with the Lean model; non-trivial = more than one fragment or a decorated line ; carriers with 9-15 fragments; two messages interleaved on one channel (sequence id 0 / empty / reused slot) through IterMessages, ByteStream and NMEAQueue')
     assumptions = ['str arguments are ASCII (decode() encodes them as UTF-8)']
 
     def run(self, ctx):
